@@ -226,7 +226,10 @@ JUNK = [' title: x', 'title x', 'unknown: v', '--- ', '----', ' ---', '}', '{', 
 GO_POOL = ['go1.18.10', 'go1.19', 'go1.19.5', 'go1.20', 'go1.20.14', 'go1.21', 'go1.21rc1', 'go1.21.0', 'go1.21.13', 'go1.22', 'go1.22rc2', 'go1.22.0',
            'go1.22.12', 'go1.23.0', 'go1.23.8', 'go1.24rc1', 'go1.24.2']
 SEMVER_POOL = ['v0.13.0', 'v0.14.0-pre.1', 'v0.14.0', 'v0.14.2', 'v0.15.0-pre.1', 'v0.15.0-pre.2', 'v0.15.0', 'v0.15.3', 'v0.16.0-pre.1',
-               'v1.0.0-pre.3', 'v1.0.0', 'v1.1.0', 'v2.0.0']
+               'v1.0.0-pre.3', 'v1.0.0', 'v1.1.0', 'v2.0.0',
+               # what the proxy lists for modules without go.mod at a major version >= 2: the real
+               # version string carries build metadata and must be listed as it is
+               'v2.0.0+incompatible', 'v2.1.0+incompatible', 'v3.0.0-pre.1+incompatible']
 
 _re_go = re.compile(r'^go(\d+)\.(\d+)(?:(rc|beta)(\d+)|\.(\d+))?$')
 
@@ -245,23 +248,33 @@ def go_key(v):
     return (maj, mnr, 0, 0) if (maj, mnr) >= (1, 21) else (maj, mnr, 3, 0)
 
 
-_re_sem = re.compile(r'^v(0|[1-9]\d*)\.(0|[1-9]\d*)\.(0|[1-9]\d*)(?:-([0-9A-Za-z.-]+))?$')
+_n = r'(0|[1-9]\d*)'
+_re_sem = re.compile(r'^v%s(?:\.%s(?:\.%s(?:-([0-9A-Za-z.-]+))?(?:\+([0-9A-Za-z.-]+))?)?)?$' % (_n, _n, _n))
 
 
 def sem_key(v):
-    """semver precedence of a canonical version (no build metadata)"""
+    """Total order of version strings in the grammar of golang.org/x/mod/semver
+    (vMAJOR[.MINOR[.PATCH[-PRE][+BUILD]]]): semver precedence (build metadata is
+    ignored, v1 = v1.0 = v1.0.0), strings of equal precedence in string order --
+    the documented order of semver.Sort.  None if v is not such a version."""
     m = _re_sem.match(v)
     if not m:
         return None
-    core = (int(m.group(1)), int(m.group(2)), int(m.group(3)))
+    core = (int(m.group(1)), int(m.group(2) or 0), int(m.group(3) or 0))
+    for grp in (m.group(4), m.group(5)):
+        if grp is not None and any(x == '' for x in grp.split('.')):
+            return None
     if m.group(4) is None:
-        return core + ((1,),)
+        return core + ((1,), v)
     ids = []
     for part in m.group(4).split('.'):
-        if part == '':
-            return None
-        ids.append((0, int(part), '') if part.isdigit() else (1, 0, part))
-    return core + ((0, tuple(ids)),)
+        if part.isdigit():
+            if len(part) > 1 and part[0] == '0':
+                return None
+            ids.append((0, int(part), ''))
+        else:
+            ids.append((1, 0, part))
+    return core + ((0, tuple(ids)), v)
 
 
 def ranks(strings, key):
